@@ -98,12 +98,12 @@ Fixpoint find_rbranch (n : string) (has_ctrl has_param : bool) (bs : list rbranc
 
 Section Formats.
   Variable Ang : Type.
-  Variable ang_eqmod : Ang -> Ang -> bool.
+  Variable ang_eqmod : bool -> Ang -> Ang -> bool.    (* first argument: long period (4 pi) *)
   Variable T : tables.
 
   Notation pgate := (pgate Ang).
   Notation param := (param Ang).
-  Notation gate_eq := (gate_eq Ang ang_eqmod).
+  Notation gate_eq := (gate_eq Ang ang_eqmod T).
 
   (* ---------------------------------------------------------------- circuits as the translators see them *)
   Record fcirc : Type := FCirc { fgates : list pgate; fwidth : Z }.
